@@ -1,0 +1,12 @@
+// Copyright 2024 The Go Authors. All rights reserved.
+// Use of this source code is governed by a BSD-style
+// license that can be found in the LICENSE file.
+
+//go:build verif
+
+// Contracts (//@ lines) for the public counter package; compiled only with -tags verif.
+
+package counter
+
+//@ contract Open
+//@   inline
